@@ -155,4 +155,5 @@ type Trace struct {
 	Calls    []Call
 	InitHash string `json:",omitempty"`
 	Err      string `json:",omitempty"` // harness error (never a violation)
+	Micros   int64  // wall time of the execution in the worker
 }
